@@ -109,6 +109,27 @@ def check_source(src, case=None, ch=None, avoid=(), stats=None):
             stats.exclude('not_lexable_by_reference')
         return None
     why = c07.out_of_domain(src, ref, avoid)
+    if why == 'long_comment_level':
+        # How such text tokenises is not asserted (C07), but the echo clause does not depend on it: whatever the
+        # tokens are, unchanged code must come back byte for byte outside string literals.  If the comment body
+        # holds no quote or backslash, no reading of it contains a string literal that could be re-spelled.
+        body = b''.join(t.text[4 + t.value:len(t.text) - 2 - t.value] for t in ref if t.kind == 'comment' and t.value)
+        if not any(c in body for c in b'"\'\\') and b'[[' not in body and b'[=' not in body:
+            for how, chunks in chunkings(src, ch):
+                try:
+                    out, _path = echo(chunks)
+                except Exception:
+                    break           # unterminated under picotool's reading etc.: no echo to judge
+                if out != src and reflex.try_lex(out) is not None and \
+                        [t.key() for t in reflex.lex(out) if t.kind != 'string'] != \
+                        [t.key() for t in ref if t.kind != 'string']:
+                    raise Violation('echo (%s) changed bytes of a levelled long comment: %s -> %s'
+                                    % (how, show(src, 120), show(out, 120)), case, 'bytes-levelled-comment')
+            if stats is not None:
+                stats.count('levelled_comment_echo_checked')
+        if stats is not None:
+            stats.exclude(why)
+        return None
     if why:
         if stats is not None:
             stats.exclude(why)
@@ -195,10 +216,17 @@ def part_chars(ctx):
     ctx.hyp('chars', st.binary(min_size=90, max_size=90), body, max_examples=2500 if ctx.quick else 30000)
 
 
+def part_fuzz(ctx):
+    """Coverage-guided bytes -> lexable filter -> the echo oracle (thorough tier; needs atheris)."""
+    corpus = [b'x="a\\0001"', b'y=[[\nl]]', b"z='\\x41\\z  b'", b'-- c\r\nq=1', b'f"s"', b'a="\\\nb"', b'x=1']
+    ctx.fuzz('c06', runs=80000, max_len=96, corpus=corpus)
+
+
 def parts(tier):
     if tier == 'quick':
         return [('programs', part_programs, 4), ('strings', part_strings, 5), ('soup', part_soup, 3), ('chars', part_chars, 4)]
-    return [('programs', part_programs, 4), ('strings', part_strings, 5), ('soup', part_soup, 3), ('chars', part_chars, 4)]
+    return [('programs', part_programs, 4), ('strings', part_strings, 4), ('soup', part_soup, 3), ('chars', part_chars, 3),
+            ('fuzz', part_fuzz, 2)]
 
 
 def replay(case):
